@@ -82,6 +82,18 @@ class C10(Harness):
                 ctx.assume(False)  # the stacker needs its horizon at fit and a hold-out window of max(fh) points
         # update_predict may be asked for other steps than the horizon known so far (fit / earlier predict)
         inp["fh_up"] = [h + 1 for h in inp["fh"]] if inp["fh_in_fit"] else list(inp["fh"])
+        has_up = any(o in ("UP0", "UP1") for o in prog)
+        # the splitter of update_predict: windows of one point moved by one, or windows of two points moved by two
+        # (each window then brings two observations the forecaster has not seen)
+        inp["up_wl"] = 1
+        if has_up:
+            uw = ctx.fresh_int("up_wl")
+            ctx.assume((uw >= 1) & (uw <= 2))
+            inp["up_wl"] = int(uw)
+        # ... and a horizon that also asks for the cutoff point itself (step 0, an in-sample forecast: window forecasters
+        # produce it through a nested moving cutoff)
+        if has_up and cell["kind"].startswith("naive") and n1 == 3 and inp["up_wl"] == 1 and len(inp["fh_up"]) == 1 and bool(ctx.fresh_bool("up_insample")):
+            inp["fh_up"] = [0] + inp["fh_up"]
         ov = ctx.fresh_int("ov")
         ctx.assume((ov >= 0) & (ov <= 1))
         inp["ov"] = int(ov)
@@ -97,7 +109,10 @@ class C10(Harness):
                 continue
             m = ctx.fresh_int("m%d" % i)
             if op.startswith("UP"):
-                ctx.assume((m >= inp["fh_up"][-1] + 1) & (m <= inp["fh_up"][-1] + 2))
+                if op.startswith("UPF"):
+                    ctx.assume((m >= inp["fh_up"][-1] + 1) & (m <= inp["fh_up"][-1] + 2))
+                else:
+                    ctx.assume((m >= inp["fh_up"][-1] + inp["up_wl"]) & (m <= inp["fh_up"][-1] + inp["up_wl"] + 1))
             else:
                 ctx.assume((m >= 1) & (m <= 2))
             m = int(m)
@@ -221,12 +236,14 @@ class C10(Harness):
                         nxt = start  # (what was absorbed before the failure is not judged)
                     else:
                         fh_up = np.array(inp["fh_up"])
-                        cv = sp.SlidingWindowSplitter(fh=fh_up, window_length=1, step_length=1, start_with_window=False)
+                        cv = sp.SlidingWindowSplitter(fh=fh_up, window_length=inp.get("up_wl", 1), step_length=inp.get("up_wl", 1), start_with_window=False)
                         before = S(f.cutoff)
                         r = f.update_predict(yb, cv, update_params=up)
                         rec["cutoff_before"] = before
                         if len(inp["fh_up"]) == 1:
                             rec["up"] = {"kind": "series", "idx": L(r.index), "vals": L(r.values)}
+                        elif not hasattr(r, "columns"):  # one moving cutoff only: the one-column frame comes back as a series
+                            rec["up"] = {"kind": "onecol", "idx": L(r.index), "vals": L(r.values)}
                         else:
                             rec["up"] = {"kind": "frame", "cols": [S(c) for c in r.columns], "idx": L(r.index), "vals": [L(r.iloc[:, j].values) for j in range(r.shape[1])]}
                         ref = []
@@ -375,6 +392,8 @@ class C10(Harness):
                     P.check("update_predict-equals-single-steps", len(r["idx"]) == len(inp["fh_up"]))
                     for a, v, h in zip(r["idx"], r["vals"], inp["fh_up"]):
                         P.eq("update_predict-equals-single-steps", a, s0 + co + h)
+                        if h <= 0:
+                            continue  # (in-sample value: judged through the equality with the explicit single steps)
                         P.eq("refit-equals-fresh-fit-on-union" if up else "no-refit-keeps-fitted-params", v, expect(h, co, fl))
                 if up:
                     fitted_len = fl
@@ -387,6 +406,12 @@ class C10(Harness):
                     for a, v, a2, v2 in zip(upo["idx"], upo["vals"], flat_i, flat_v):
                         P.eq("update_predict-equals-single-steps", a, a2)
                         P.eq("update_predict-equals-single-steps", v, v2)
+                elif upo["kind"] == "onecol":
+                    P.check("update_predict-equals-single-steps", len(ref) == 1 and len(upo["idx"]) == len(ref[0]["idx"]))
+                    if len(ref) == 1:
+                        for a, v, a2, v2 in zip(upo["idx"], upo["vals"], ref[0]["idx"], ref[0]["vals"]):
+                            P.eq("update_predict-equals-single-steps", a, a2)
+                            P.eq("update_predict-equals-single-steps", v, v2)
                 else:
                     P.check("update_predict-equals-single-steps", len(upo["cols"]) == len(ref))
                     if len(upo["cols"]) == len(ref):
